@@ -108,6 +108,11 @@ def check_property(pid, tier='quick', seed=0, out=sys.stdout, quiet_summary=Fals
             undecided.append((R.name, 'unit not registered'))
             continue
         changed, changed_items = _unit_changed(R, reg)
+        wchanged = sorted(k for k in set(R.watch) | set(reg.get('watch', {})) if R.watch.get(k) != reg.get('watch', {}).get(k))
+        if wchanged:
+            # the unit relies on an ASSUMED contract for these functions; the assumption was made for the text that was reviewed
+            undecided.append((R.name, 'a function whose contract is only assumed has changed since registration (its assumed contract is no longer backed by review): ' + ', '.join(wchanged)))
+            continue
         # obligations relevant to this property
         rel = []
         for label, props in R.obligations:
